@@ -12,11 +12,22 @@ Two renderings are told apart because SPSDK's parsers treat them differently:
 
 
 class HexNum(str):
-    def __new__(cls, v, text="0x<sym>", digits=None):
-        s = str.__new__(cls, text)
+    def __new__(cls, v, text=None, digits=None):
+        s = str.__new__(cls, text or ("0x<sym>" if digits is None else "<sym-bare-hex>"))
         s.sym = v
         s.digits = digits
         return s
+
+    def __radd__(self, other):
+        # "0x" + bare digits: the prefixed text of the same number (load_hex_string does exactly this)
+        if other in ("0x", "0X") and self.digits is not None:
+            return HexNum(self.sym)
+        from .core import Unsupported
+        raise Unsupported("string concatenation with a rendered symbolic number")
+
+    def __add__(self, other):
+        from .core import Unsupported
+        raise Unsupported("string concatenation with a rendered symbolic number")
 
 
 def bare_value_to_int(v, n, error):
